@@ -144,7 +144,26 @@ def r1_writers(ctx: Context) -> None:
     for name, arg_forms in (("set_samplers", ("samplers",)), ("set_scheduler", ("self.scheduler.samplers", "scheduler.samplers"))):
         f = ctx.func(f"{CAL}.{name}")
         calls = [c for c in calls_in(f.node) if isinstance(c.func, ast.Attribute) and c.func.attr == "update_samplers_id_table"]
-        ok = len(calls) == 1 and len(calls[0].args) == 1 and src(calls[0].args[0]) in arg_forms
+        def _plain(e: ast.expr, depth: int = 0) -> ast.expr:
+            # a local bound once, and tuple(...) / list(...) snapshots, stand for what they hold
+            while depth < 6:
+                depth += 1
+                if isinstance(e, ast.Call) and isinstance(e.func, ast.Name) and e.func.id in ("tuple", "list") and len(e.args) == 1 and not e.keywords:
+                    e = e.args[0]
+                    continue
+                if isinstance(e, ast.Name):
+                    defs = [x.value for x in walk_scope(f.node) if isinstance(x, (ast.Assign, ast.AnnAssign)) and x.value is not None
+                            and any(isinstance(t, ast.Name) and t.id == e.id for t in (x.targets if isinstance(x, ast.Assign) else [x.target]))]
+                    if len(defs) == 1 and e.id not in f.params:
+                        e = defs[0]
+                        continue
+                break
+            return e
+        forms = (*arg_forms, "self.scheduler._samplers") if name == "set_samplers" else arg_forms
+        got_ = _plain(calls[0].args[0]) if len(calls) == 1 and len(calls[0].args) == 1 else None
+        ok = got_ is not None and src(got_) in forms
+        if got_ is not None and not ok and not isinstance(got_, (ast.Subscript, ast.Name, ast.Attribute, ast.List, ast.Tuple)):
+            raise AnalysisError(f"{f.loc(calls[0])}: cannot read what `{src(calls[0])[:80]}` extends the table with")
         ctx.check(ok, "R1.update-on-replace", f"Calibrator.{name}:updates-table", f"{name} extends the table with the new line-up",
                   f"{name} does not call update_samplers_id_table with the new samplers", f, f.node)
     # the scheduler's line-up changes only through calls that also update the table: every store of the sampler sequence takes a private copy, so a list the
